@@ -42,6 +42,12 @@ ASSUMPTIONS = [
 SCALARS = ["Int", "Float", "String", "Boolean", "ID"]
 ENUMS = ["names", "sdl", "ints", "absent", "cross", "py_values", "py_names", "py_members", "intenum_members",
          "unhashable", "equal"]
+# generated enums: every assignment of {absent, own or another member's name, an int} to 2 and 3 members - explicit values
+# that equal the name of another (value-less) member are where "first value or name wins" matters
+GEN_VALUES = [None, "A", "B", "C", 1]
+GEN_ENUMS = [f"gen2:{a}{b}" for a in range(5) for b in range(5) if GEN_VALUES[a] != "C" and GEN_VALUES[b] != "C"] + \
+            [f"gen3:{a}{b}{c}" for a in range(4) for b in range(4) for c in range(4)]
+ENUMS = ENUMS + GEN_ENUMS
 MODES = ["direct", "field", "nonnull_field", "list_item", "nonnull_list_item"]
 
 
@@ -85,6 +91,9 @@ def build_type(key):
         t = E("E", {"L": [1], "D": {"x": 1}, "S": {1}, "N": 1, "T": (1,), "LL": [[1]], "E": [], "P": [1, 2]})
     elif key == "equal":
         t = E("E", {"I": 1, "T": True, "F": 1.0, "Z": 0, "NO": False, "S": "1", "NAN": _NAN, "NEG0": -0.0})
+    elif key.startswith("gen"):
+        idx = key.split(":")[1]
+        t = E("E", {name: GEN_VALUES[int(i)] for name, i in zip("ABC", idx)})
     else:
         raise KeyError(key)
     extras = []
@@ -112,11 +121,13 @@ def shards(tier):
     step = 52
     for key in SCALARS + ENUMS:
         for lo in range(0, n, step):
+            if key.startswith("gen") and lo:
+                continue  # generated enums: names, internal values, lower-case names (extras) + the first chunk of the value menu
             out.append(("menu", key, lo, min(n, lo + step)))
         if key in ENUMS:
             out.append(("extras", key, 0, 0))
     if tier == "thorough":
-        for key in SCALARS + ENUMS:
+        for key in SCALARS + [k for k in ENUMS if not k.startswith("gen")]:
             for lo in range(0, n, 26):
                 out.append(("pairs", key, lo, min(n, lo + 26)))
     return out
